@@ -456,6 +456,27 @@ def run_lifecycle(ctx, focus):
             for i, clause in bad[:2]:
                 w = ok[i]
                 ctx.finding_or_violation(focus, fx, w, clause)
+            if ok and not bad and fi == 0:
+                from harness.tracecheck import selftest
+
+                def corrupt(t):
+                    if focus == "C12":
+                        e = [x for x in t["events"] if x["after"]["train"]["live"]][-1]
+                        e["after"]["train"]["mask"][0] = not e["after"]["train"]["mask"][0]
+                        return "one logged observation-mask bit of the training screen flipped"
+                    if focus == "C03":
+                        e = [x for x in t["events"] if x["after"]["train"]["live"]][-1]
+                        e["after"]["train"]["sids"][0] += 1
+                        return "one logged sample id of the training screen incremented"
+                    for e in t["events"]:
+                        if e["op"] == "save":
+                            e["after"]["files"][e["p"] - 1]["val"][0] += 1
+                            return "one logged value token of a saved file changed"
+                    return None
+                pool = [w for w in ok if (focus != "C02" or any(e["op"] == "save" for e in w.events))]
+                if pool:
+                    selftest(ctx, "TraceLifecycle", {"events": pool[0].events}, corrupt, decide=None, next_="TNext", init="TInit", invariants=["TInv"],
+                             constants={"Zero": 1, "MaxDepth": 99, "Paths": {1, 2}, "Export": False, "Focus": focus}, extra_files={"fixture.json": fjson})
             if ok:
                 ctx.sample({"fixture": fx.name, "history": [{k: v for k, v in e.items() if k != "after"} for e in ok[0].events][:6]})
     finally:
